@@ -243,3 +243,7 @@ impl Spawner for NtsPoolSpawner {
         "nts-pool"
     }
 }
+
+#[cfg(all(test, feature = "pendulum_project_ntpd_rs_verif"))]
+#[path = "../../../../../verif/harness/ntpd/daemon_spawn_nts_pool.rs"]
+mod verif_daemon_spawn_nts_pool;
